@@ -563,9 +563,9 @@ class MPBFixedContext(SizedContext):
                         else:
                             result = Float(x=self.inf_value, ctx=self)
                     else:
-                        result = self.maxval(xr.s)
+                        result = self.smallest() if xr.s else self.largest()
                 case OverflowMode.SATURATE:
-                    return self.maxval(s=xr.s)
+                    result = self.smallest() if xr.s else self.largest()
                 case OverflowMode.WRAP:
                     ord_abs = self._fmt._mp_fmt.to_ordinal(Float(x=xr)) - self._fmt._neg_maxval_ord
                     total_ord = self._fmt._pos_maxval_ord - self._fmt._neg_maxval_ord + 1
